@@ -2423,6 +2423,7 @@ class IndicatorSumConstraint(Functional):
         """Return the `proximal factory` of the functional."""
 
         domain = self.domain
+        sum_value = self.sum_value
 
         class ProximalSum(Operator):
             """Proximal operator."""
@@ -2434,7 +2435,7 @@ class IndicatorSumConstraint(Functional):
 
             def _call(self, x, out):
 
-                offset = 1 / x.size * (self.sum_value - x.ufuncs.sum())
+                offset = 1 / x.size * (sum_value - x.ufuncs.sum())
                 out.assign(x)
                 out += offset
 
